@@ -9,6 +9,7 @@ import (
 	"bytes"
 	"fmt"
 	"strings"
+	"sync/atomic"
 
 	"github.com/google/wuffs/lib/rac"
 	"wvh/hlib"
@@ -47,10 +48,15 @@ func managerRequests(tf *testFile, lo, hi int64) ([]rac.Range, string, bool) {
 	return rs, out, ok
 }
 
+// pfHung counts per-function runs abandoned by the watchdog; after a few, the remaining ones are skipped
+// (the run has failed already; every further hang costs 20 s and leaves a goroutine behind).
+var pfHung int32
+
 // workerPieces: what runRWorker sends back for the requests
-func workerPieces(tf *testFile, reqs []rac.Range) (string, bool) {
+func workerPieces(tf *testFile, reqs []rac.Range, ps *[]rac.VerifPiece) (string, bool) {
 	return hlib.WithTimeout(watchdog, func() string {
-		ps := rac.VerifWorkerPieces(freshReader(tf), reqs)
+		*ps = rac.VerifWorkerPieces(freshReader(tf), reqs)
+		ps := *ps
 		if len(ps) == 0 {
 			return "-"
 		}
@@ -91,6 +97,9 @@ type pfOut struct {
 
 func perFunction(c *testCase, rng *hlib.Rand) pfOut {
 	var out pfOut
+	if atomic.LoadInt32(&pfHung) >= 3 {
+		return out
+	}
 	tf := c.tf
 	pts := interesting(tf)
 	fail := func(key, format string, a ...interface{}) {
@@ -156,6 +165,7 @@ func perFunction(c *testCase, rng *hlib.Rand) pfOut {
 		rs, text, ok := managerRequests(tf, lo, hi)
 		out.lines = append(out.lines, [2]string{fmt.Sprintf("mgr %d %d", lo, hi), text})
 		if !ok {
+			atomic.AddInt32(&pfHung, 1)
 			fail("deadlock:manager-alone", "runRManager did not finish the region [%d, %d) within %v", lo, hi, watchdog)
 			return out
 		}
@@ -199,15 +209,43 @@ func perFunction(c *testCase, rng *hlib.Rand) pfOut {
 			if len(reqs) == 0 {
 				continue
 			}
-			text, ok := workerPieces(tf, reqs)
+			var ps []rac.VerifPiece
+			text, ok := workerPieces(tf, reqs, &ps)
 			out.lines = append(out.lines, [2]string{"wrk " + rangesText(reqs), text})
 			if !ok {
+				atomic.AddInt32(&pfHung, 1)
 				fail("deadlock:worker-alone", "runRWorker did not finish the requests %v within %v", reqs, watchdog)
 				return out
 			}
 			if text == "panic" {
 				fail("panic:worker-alone", "runRWorker panicked on the requests %v", reqs)
 				return out
+			}
+			// the property's own oracle for the Worker: the pieces tile the requests in order, none is empty or
+			// longer than a buffer, and each carries the decoded file's bytes of its range
+			k := 0
+			for _, rq := range reqs {
+				at := rq[0]
+				for at < rq[1] {
+					if k >= len(ps) {
+						fail("mismatch:worker-pieces", "requests %v: the pieces end at %d inside the request %v", reqs, at, rq)
+						break
+					}
+					p := ps[k]
+					k++
+					n := p.DRange[1] - p.DRange[0]
+					if p.Err != nil || p.DRange[0] != at || n <= 0 || n > rac.VerifRBufferSize || p.DRange[1] > rq[1] ||
+						int64(len(p.Data)) != n || !bytes.Equal(p.Data, tf.decoded[p.DRange[0]:p.DRange[1]]) {
+						fail("mismatch:worker-pieces", "requests %v: piece %v (error %v, %d bytes) is not the decoded data at %d", reqs, p.DRange, p.Err, len(p.Data), at)
+						at = rq[1]
+						k = len(ps) + 1
+						break
+					}
+					at = p.DRange[1]
+				}
+			}
+			if k < len(ps) {
+				fail("mismatch:worker-pieces", "requests %v: %d pieces too many", reqs, len(ps)-k)
 			}
 		}
 	}
